@@ -879,3 +879,78 @@ def _revrange_next(eng, m, args, fr, dty):
         r.fields[1] = ne
         return Some(ne)
     return NONE()
+
+
+# ---------------------------------------------------------------- decimal text <-> BigInt
+@model(r'^<BigInt as Num>::from_str_radix$|^BigInt::parse_bytes$')
+def _from_str_radix(eng, m, args, fr, dty):
+    items = items_of(eng, args[0], fr)
+    radix = concrete(args[1].e)
+    W = eng.bigw
+    if radix != 10:
+        raise Unsupported('from_str_radix radix %r' % radix)
+    err = Err(Opaque('ParseBigIntError'))
+    if not items:
+        return err
+    neg = eng.branch_bool(items[0].e == 45)
+    plus = (not neg) and eng.branch_bool(items[0].e == 43)
+    digs = items[1:] if (neg or plus) else items
+    if not digs:
+        return err
+    for b in digs:
+        if not eng.branch_bool(z3.And(z3.UGE(b.e, 48), z3.ULE(b.e, 57))):
+            if eng.branch_bool(b.e == 95):
+                raise PathEnd('bound', "from_str_radix with '_' separator not modelled")
+            return err
+    if 10 ** len(digs) >= 1 << (W - 1):
+        raise PathEnd('bound', 'decimal literal too long for BigInt model')
+    acc = z3.BitVecVal(0, W)
+    for b in digs:
+        acc = acc * 10 + z3.ZeroExt(W - 8, b.e - 48)
+    return Ok(Big(-acc if neg else acc))
+
+
+def decimal_digits(eng, mag, maxd=None):
+    """fork on the number of decimal digits of a non-negative BigInt term; -> list of digit byte terms (ASCII)"""
+    W = eng.bigw
+    c = concrete(mag)
+    if c is not None:
+        return [Int(z3.BitVecVal(ord(ch), 8), 8, False) for ch in str(c)]
+    maxd = maxd or len(str((1 << (W - 1)) - 1))
+    opts = []
+    for d in range(1, maxd + 1):
+        lo = 0 if d == 1 else 10 ** (d - 1)
+        hi = 10 ** d
+        cond = z3.UGE(mag, z3.BitVecVal(lo, W))
+        if hi < (1 << W):
+            cond = z3.And(cond, z3.ULT(mag, z3.BitVecVal(hi, W)))
+        opts.append((d, cond))
+    d = eng.choose(opts)
+    out = []
+    for k in range(d):
+        p = 10 ** (d - 1 - k)
+        dig = z3.URem(z3.UDiv(mag, z3.BitVecVal(p, W)), z3.BitVecVal(10, W))
+        out.append(Int(z3.Extract(7, 0, dig) + 48, 8, False))
+    return out
+
+
+@model(r'^<BigInt as ToString>::to_string$|^<BigInt as Display>::fmt_to_string$')
+def _big_to_string(eng, m, args, fr, dty):
+    e = eng.deref(args[0], fr).e
+    neg = eng.branch_bool(e < 0)
+    mag = -e if neg else e
+    digs = decimal_digits(eng, mag)
+    return Vec(([mkint(45, 'u8')] if neg else []) + digs)
+
+
+@model(r'^<Rc<.*> as PartialEq>::(eq|ne)$')
+def _rc_eq(eng, m, args, fr, dty):
+    a, b = eng.deref(args[0], fr), eng.deref(args[1], fr)
+    if a is b:
+        return mkbool(m.group(1) == 'eq')
+    va, vb = a.v, b.v
+    if isinstance(va, Vec) and isinstance(vb, Vec):
+        from .models_vec import items_eq
+        e = items_eq(eng, va.items, vb.items)
+        return Bool(z3.Not(e) if m.group(1) == 'ne' else e)
+    return NotImplemented
